@@ -246,6 +246,36 @@ CHECKS = {
              'proc trace event, really enforced timeouts are observed in the sleeper family only; a deviation '
              '(ActSetReinitialised) must be refuted by TLC in every run.',
         design='5/C11'),
+    'C17': dict(
+        engine='spec/SuiteCases.tla, spec/SuiteCasesExport.tla',
+        technique='TLC model checking of a 15-action machine that processes the cases of one invocation with the process '
+                  'state threaded through them, against a declarative reading (each case alone; merge of suite and case '
+                  'contents) + replay of every enumerated history / merge / sandbox-value input in four ways of running '
+                  'through the real CLI',
+        text='TLC checks CasePure, OrderIrrelevant, EveryCase, MergeOrder, NotInherited, ThreeWaysAgree, OwnSandbox and '
+             'Preprocessed over histories of 26 kinds of setting-mutating cases followed by observers, all 64 x 2 (quick) / '
+             '4 096 (thorough) distributions of suite and case contents over the phases incl. actor, status and '
+             'preprocessor in [conf], and 20 kinds of suite-supplied instructions whose value depends on the running '
+             'case\'s sandbox; each is run via suite, --suite, beside exactly.suite and plain, and identifiers, ordered '
+             'probe records, sandbox ownership of every value and os.environ / cwd afterwards are compared.',
+        note='Bounded history length; eight named deviations must each be refuted by TLC in every run; a short process after '
+             '`timeout = 0` is a race and is never generated.',
+        design='5/C17'),
+    'C08': dict(
+        engine='spec/Symbols.tla, spec/SymbolsExport.tla',
+        technique='TLC model checking of a 19-action machine (one validation walk in execution order with a growing table, '
+                  'then execution against the execution-time table) over programs of def / use instructions, against a '
+                  'declarative violation set + replay of every enumerated program through the real CLI with probes',
+        text='TLC checks VisibleIffDefinedBefore, DefinedOnce (builtins included), TypeCheckedTransitively, '
+             'RejectedIffViolation, RejectedBeforeExecution, ValidationTableCoversExecutionTable, AcceptedImpliesResolvable '
+             'and SubstitutionShape over programs of <= 4 instructions in any phases and file order, the full (defined type x '
+             'required type) matrix directly and through one- and two-reference definitions and chains; every program is a '
+             'real test case: VALIDATION_ERROR (place, rule, symbol) with nothing executed, or the values observed as argv '
+             'of a probe, created directories / files, environment and kept lines.',
+        note='13 value types, 19 use contexts; which contexts demand "just strings" transitively follows the property '
+             'statement and the program\'s messages (the manual is silent); three named deviations (FirstRefOnly, ActLast, '
+             'NoBuiltinsInTable) must each be refuted by TLC in every run.',
+        design='5/C08'),
 }
 
 NOT_YET = 'check not built yet (planned in DESIGN.md section 5); no claim is made'
